@@ -246,4 +246,3 @@ func ovStr(spec *EncSpec, v interface{}) string {
 	}
 	return valStr(spec, v)
 }
-
